@@ -23,6 +23,24 @@ def cfg(L, cases, emit=False, dev="{}", live=True):
 
 def run(ctx):
     vh = ctx.vh()
+    if ctx.replay and json.load(open(ctx.replay)).get("kind") == "reporter_sequence":
+        mm = json.load(open(ctx.replay))["scenario"]
+        # the specification's expectation for this history is recomputed by TLC's formula: window per report
+        def win(l, n, readable):
+            return [0, 0] if (not readable or n == 0 or l - 2 > n) else [max(l - 2, 1), min(l + 1, n)]
+        hist = []
+        reads = {"a": 0, "b": 0}
+        for h in mm["history"]:
+            n, readable = (mm["n"], True) if h["f"] == "a" else (2, mm["bReadable"])
+            lo, hi = win(h["l"], n, readable)
+            hist.append({"f": h["f"], "l": h["l"], "lo": lo, "hi": hi})
+            reads[h["f"]] = (reads[h["f"]] + 1) if not readable else 1
+        line = "@E " + json.dumps({"n": mm["n"], "bReadable": mm["bReadable"], "hist": hist, "readsA": reads["a"], "readsB": reads["b"]})
+        p = subprocess.run([vh, "reporter-seq-replay"], input=line + "\n", stdout=subprocess.PIPE, stderr=subprocess.PIPE, text=True)
+        print(p.stdout.strip())
+        if p.returncode == 1:
+            print("VIOLATION property=C19 replay=%s" % ctx.replay)
+        return p.returncode
     if ctx.replay:
         r = vlib.run([vh, "excerpt-replay", "-replay", ctx.replay])
         print(r.stdout.strip())
@@ -82,14 +100,39 @@ def run(ctx):
                           {"Case": mm["Case"], "Variant": mm["Variant"], "observed": o})
         os.remove(r["out"])
 
+    # (3) one Reporter, many diagnostics: the line cache (ReporterCache.tla) - every history of <= 3 (quick) / 4 (thorough) reports
+    rcfg = ("SPECIFICATION Spec\nCONSTANTS\n  MaxLen = 5\n  MaxReports = %d\n  Deviations = %s\n  Emit = %s\n"
+            "INVARIANTS Stateless ReadOnce Retry CacheFaithful EmitInv\nCHECK_DEADLOCK FALSE\n")
+    r = ctx.tlc("ReporterCache", rcfg % (2, '{"PrefixCache"}', "FALSE"), label="c19_cache_dev", allow_violation=True, count=False, collect_emit=False)
+    if r["violated"] is None:
+        raise vlib.ToolError("deviation PrefixCache violates nothing in ReporterCache: vacuous")
+    r = ctx.tlc("ReporterCache", rcfg % (4 if thorough else 3, "{}", "TRUE"), label="c19_cache", collect_emit=False, timeout=2400)
+    with open(r["out"]) as f:
+        p = subprocess.run([vh, "reporter-seq-replay"], stdin=f, stdout=subprocess.PIPE, stderr=subprocess.PIPE, text=True)
+    if p.returncode not in (0, 1):
+        raise vlib.ToolError("reporter-seq-replay failed: " + (p.stderr or p.stdout)[-2000:])
+    seq = json.loads(p.stdout)
+    if seq["histories"] != r["distinct"]:
+        raise vlib.ToolError("replayed %d histories, TLC found %d states" % (seq["histories"], r["distinct"]))
+    for mm in (seq["mismatches"] or [])[:2]:
+        if len(ctx.violations) < 3:
+            ctx.violation("one Reporter, diagnostics %s on a file of %d lines (b readable: %s): report %d, %s: expected %s, observed %s"
+                          % ([(h["f"], h["l"]) for h in mm["history"]], mm["n"], mm["bReadable"], mm["report"], mm["what"], mm["expected"], str(mm["observed"])[:300]),
+                          {"kind": "reporter_sequence", "scenario": mm})
+    execs += seq["renders"]
+    os.remove(r["out"])
+
     return ctx.finish("model_checking", {
+        "reporter_histories_replayed": seq["histories"],
         "traces_validated_against_impl": execs,
         "samples": samples[:2],
         "evaluations": execs,
         "distinct_nontrivial": trunc,
         "rule": "terminal states of Excerpt.tla at L=200 (%s) are executed through reporting.Reporter.ReportViolation with a synthetic pass "
                 "in three line-content variants (ascii, tabs, 2-byte runes); the shown byte window, ellipses, caret column, caret-line tabs, "
-                "context line numbers and help line are compared with the specification; distinct_nontrivial = executions whose line is truncated"
+                "context line numbers and help line are compared with the specification; every history of ReporterCache.tla (one Reporter rendering "
+                "up to 3-4 diagnostics on two files, one possibly unreadable or shorter than the reported line) is replayed: window, text of the context "
+                "lines, byte-identity with a fresh Reporter's message, number of ReadFile calls; distinct_nontrivial = executions whose line is truncated"
                 % ("all lengths 0..600 x all columns" if thorough else "every regime boundary +-3"),
         "exhaustive": thorough,
         "cases": cases,
